@@ -53,7 +53,9 @@ Fixpoint zero_span (gs : list Z) (i : nat) (longest current : nat * nat) : nat *
 (* Ipv6Addr::to_ipv4_mapped: [0,0,0,0,0,0xffff,ab,cd] *)
 Definition to_ipv4_mapped (gs : list Z) : option (list Z) :=
   match gs with
-  | [0; 0; 0; 0; 0; 65535; ab; cd] => Some [ab / 256; ab mod 256; cd / 256; cd mod 256]
+  | [g0; g1; g2; g3; g4; g5; ab; cd] =>
+      if (g0 =? 0) && (g1 =? 0) && (g2 =? 0) && (g3 =? 0) && (g4 =? 0) && (g5 =? 65535)
+      then Some [ab / 256; ab mod 256; cd / 256; cd mod 256] else None
   | _ => None
   end.
 
@@ -249,8 +251,9 @@ Definition to_ipv6_mapped (o : list Z) : list Z :=
 (* Ipv6Addr::to_ipv4: [0,0,0,0,0,0 | 0xffff, ab, cd] *)
 Definition to_ipv4 (g : list Z) : option (list Z) :=
   match g with
-  | [0; 0; 0; 0; 0; f; ab; cd] =>
-      if (f =? 0) || (f =? 65535) then Some [ab / 256; ab mod 256; cd / 256; cd mod 256] else None
+  | [g0; g1; g2; g3; g4; f; ab; cd] =>
+      if (g0 =? 0) && (g1 =? 0) && (g2 =? 0) && (g3 =? 0) && (g4 =? 0) && ((f =? 0) || (f =? 65535))
+      then Some [ab / 256; ab mod 256; cd / 256; cd mod 256] else None
   | _ => None
   end.
 
